@@ -407,8 +407,11 @@ fn handle_item(
             handle_body(body, &mut dest, scope, file_context)?;
         }
         Item::Comment(c) => {
-            if !scope.get_format().is_compressed() {
-                dest.push_comment(c.evaluate(scope)?.take_value().into());
+            // In compressed output, only `/*!` comments are preserved.
+            let keep = !scope.get_format().is_compressed();
+            let c = c.evaluate(scope)?.take_value();
+            if keep || c.starts_with('!') {
+                dest.push_comment(c.into());
             }
         }
         Item::None => (),
